@@ -1,6 +1,7 @@
 import TF.Proofs.U32s
 import TF.Gen.Consts
 import TF.Proofs.GenBridgeU32s
+import TF.Proofs.GenBridgeU32s2
 /-!
 # C19 — fixed-width `U32s<N>` integers compute exactly or panic, never wrap
 
@@ -206,5 +207,126 @@ theorem gen_limb_loops_transfer {N : Nat} {a b : List Nat} (ha : WF N a) (hb : W
     · rw [if_pos hk] at h; exact ⟨hk, Option.some.inj h⟩
     · rw [if_neg hk] at h; cases h
 example : WF 2 [4294967295, 1] ∧ WF 2 [1, 0] := by decide
+
+end TF.C19
+
+/-! ## regenerated-from-source bridge, part 2 (tools/rs2lean_ext.py, `TF/Gen/U32sLoops2.lean`)
+
+`rem_div` (with its calls of the regenerated `mul_two`, `get_bit`, `set_bit`, `>=` through `partial_cmp`/`Ord::cmp`, `-`),
+`Ord::cmp` (`iter().rev().cmp(..)`), `is_zero` (`iter().all(|x| *x == 0)`), `zero`, `one`, `From<u32>`, `From<BigUint>`
+(`BigUint` = unbounded `Nat`) and `TryFrom<u64/u128>` (`match N { 0 if .. => err, .. }`, `Result` = `Except String`) are
+regenerated from `u32s.rs` on every run as well.  Proofs: `TF/Proofs/GenBridgeU32s2.lean`.  `N < 2^59` makes the `usize`
+product `32 * N` exact (a `[u32; N]` cannot be larger). -/
+namespace TF.C19
+open TF.U32s TF.Gen
+
+/-- bound on the limb count under which `32 * N` does not overflow a `usize` -/
+def NMax : Nat := 576460752303423488
+example : NMax = 2 ^ 59 := by decide
+
+/-- regenerated `get_bit` / `set_bit` = hand model (`none` = the `assert!(bit_index < 32 * N)` panic) -/
+theorem gen_get_bit_eq_model {N : Nat} {a : List Nat} (ha : WF N a) (hN : N < NMax) (i : Nat) :
+    (if Loops.u32s_get_bit_ok N a i then some (Loops.u32s_get_bit N a i) else none) = getBit a i :=
+  TF.GenBridge.U32s2.gen_get_bit_eq N a i ha.1 hN
+theorem gen_set_bit_eq_model {N : Nat} {a : List Nat} (ha : WF N a) (hN : N < NMax) (i : Nat) (v : Bool) :
+    (if Loops.u32s_set_bit_ok N a i v then some (Loops.u32s_set_bit N a i v) else none) = setBit a i v :=
+  TF.GenBridge.U32s2.gen_set_bit_eq N a i v ha.1 ha.2 hN
+example : Loops.u32s_get_bit 2 [0, 2147483648] 63 = true ∧ Loops.u32s_get_bit_ok 2 [0, 2147483648] 64 = false ∧
+    Loops.u32s_set_bit 2 [5, 0] 33 true = [5, 2] ∧ Loops.u32s_set_bit 2 [5, 2] 0 false = [4, 2] := by decide
+
+/-- regenerated `Ord::cmp` = hand model, hence (transfer of `cmp_spec`) the order of the values; `>=` as Rust evaluates it
+    (`PartialOrd::ge` over the regenerated `partial_cmp`) is `val b ≤ val a` -/
+theorem gen_cmp_transfer {N : Nat} {a b : List Nat} (ha : WF N a) (hb : WF N b) :
+    Loops.u32s_cmp N a b = compare (val a) (val b) ∧
+    (TF.RustStd.ord_ge (Loops.u32s_partial_cmp N a b) = true ↔ val b ≤ val a) := by
+  rw [TF.GenBridge.U32s2.gen_cmp_eq, TF.GenBridge.U32s2.gen_ge_eq]
+  exact cmp_spec ha hb
+example : Loops.u32s_cmp 2 [4294967295, 0] [0, 1] = .lt ∧ Loops.u32s_cmp 2 [0, 2] [4294967295, 1] = .gt ∧
+    TF.RustStd.ord_ge (Loops.u32s_partial_cmp 2 [3, 7] [3, 7]) = true := by decide
+
+/-- regenerated `rem_div` = hand model -/
+theorem gen_rem_div_eq_model {N : Nat} {a d : List Nat} (ha : WF N a) (hd : WF N d) (hN : N < NMax) :
+    (if Loops.u32s_rem_div_ok N a d then some (Loops.u32s_rem_div N a d) else none) = remDiv a d :=
+  TF.GenBridge.U32s2.gen_rem_div_eq N a d ha hd hN
+
+/-- **transfer of `rem_div_spec`**: the `rem_div` that is in the source now, on a non-zero divisor, never panics (no
+    `assert!` fails, none of the inner `mul_two`/`-` overflows, no index is out of range) and returns exactly quotient
+    and remainder; on the zero divisor it panics -/
+theorem gen_rem_div_transfer {N : Nat} {a d : List Nat} (ha : WF N a) (hd : WF N d) (hN : N < NMax) :
+    (val d ≠ 0 → Loops.u32s_rem_div_ok N a d = true ∧
+        Loops.u32s_rem_div N a d = (ofNat N (val a / val d), ofNat N (val a % val d))) ∧
+    (val d = 0 → Loops.u32s_rem_div_ok N a d = false) := by
+  have h := gen_rem_div_eq_model ha hd hN
+  rw [remDiv_eq ha hd] at h
+  constructor
+  · intro hnz
+    rw [if_neg hnz] at h
+    by_cases hk : Loops.u32s_rem_div_ok N a d = true
+    · rw [if_pos hk] at h; exact ⟨hk, Option.some.inj h⟩
+    · rw [if_neg hk] at h; cases h
+  · intro hz
+    rw [if_pos hz] at h
+    by_cases hk : Loops.u32s_rem_div_ok N a d = true
+    · rw [if_pos hk] at h; cases h
+    · simpa using hk
+example : WF 2 [4294967295, 4294967295] ∧ WF 2 [4294967295, 2147483648] ∧ val [4294967295, 2147483648] ≠ 0 ∧
+    Loops.u32s_rem_div 2 [4294967295, 4294967295] [4294967295, 2147483648] = ([1, 0], [0, 2147483647]) ∧
+    Loops.u32s_rem_div_ok 2 [5, 5] [0, 0] = false := by decide +kernel
+
+/-- regenerated `Mul for U32s<N>` = hand model (value and fuel: when the model returns a value the regenerated loops finish
+    within their fuel with that value and no `assert!` fails; when the model panics an `assert!` of the regenerated code fails) -/
+theorem gen_mul_eq_model {N : Nat} {a b : List Nat} (ha : WF N a) (hb : WF N b) (hN : N < NMax) :
+    (∀ r, mul a b = some r → Loops.u32s_mul N a b = some r ∧ Loops.u32s_mul_ok N a b = true) ∧
+    (mul a b = none → Loops.u32s_mul_ok N a b = false) :=
+  TF.GenBridge.U32s2.gen_mul_eq N a b ha hb hN
+
+/-- **transfer of `mul_spec`**: the `Mul` that is in the source now returns the exact product when it is representable
+    (finishing within the fuel, no `assert!` failing) and panics (an `assert!` fails) otherwise — never wraps -/
+theorem gen_mul_transfer {N : Nat} {a b : List Nat} (ha : WF N a) (hb : WF N b) (hN : N < NMax) :
+    (val a * val b < W ^ N → Loops.u32s_mul N a b = some (ofNat N (val a * val b)) ∧ Loops.u32s_mul_ok N a b = true) ∧
+    (¬ val a * val b < W ^ N → Loops.u32s_mul_ok N a b = false) := by
+  obtain ⟨hs, hn⟩ := gen_mul_eq_model ha hb hN
+  have h := mul_spec ha hb
+  constructor
+  · intro hlt; rw [if_pos hlt] at h; exact hs _ h
+  · intro hge; rw [if_neg hge] at h; exact hn h
+example : WF 4 [4294967295, 4294967295, 0, 0] ∧
+    Loops.u32s_mul 4 [4294967295, 4294967295, 0, 0] [4294967295, 4294967295, 0, 0] = some [1, 0, 4294967294, 4294967295] ∧
+    Loops.u32s_mul_ok 4 [4294967295, 4294967295, 0, 0] [4294967295, 4294967295, 0, 0] = true ∧
+    Loops.u32s_mul_ok 2 [0, 1] [0, 1] = false := by decide +kernel
+
+/-- regenerated `is_zero`, `zero`, `one`, `From<u32>` = hand model -/
+theorem gen_small_eq_model (N : Nat) (a : List Nat) (v : Nat) :
+    Loops.u32s_is_zero N a = isZero a ∧ Loops.u32s_zero N = zero N ∧
+    (if Loops.u32s_one_ok N then some (Loops.u32s_one N) else none) = one N ∧
+    (if Loops.u32s_from_u32_ok N v then some (Loops.u32s_from_u32 N v) else none) = fromU32 N v :=
+  ⟨rfl, rfl, TF.GenBridge.U32s2.gen_one_eq N, TF.GenBridge.U32s2.gen_from_u32_eq N v⟩
+example : Loops.u32s_from_u32 3 7 = [7, 0, 0] ∧ Loops.u32s_from_u32_ok 0 7 = false ∧ Loops.u32s_one 2 = [1, 0] := by decide
+
+/-- **transfer of `try_from_u64_spec` / `try_from_u128_spec`**: the conversions that are in the source now (the `match N`
+    arms and the `From<BigUint>` limb loop) never panic and succeed exactly when the value fits `N` limbs, with the exact
+    value (`Except.error _` = `Err(InsufficientSize)`) -/
+theorem gen_try_from_transfer (N : Nat) {v : Nat} :
+    (v < 2 ^ 64 → Loops.u32s_try_from_u64_ok N v = true ∧
+      TF.GenBridge.U32s2.toOpt (Loops.u32s_try_from_u64 N v) = if v < W ^ N then some (ofNat N v) else none) ∧
+    (v < 2 ^ 128 → Loops.u32s_try_from_u128_ok N v = true ∧
+      TF.GenBridge.U32s2.toOpt (Loops.u32s_try_from_u128 N v) = if v < W ^ N then some (ofNat N v) else none) := by
+  constructor
+  · intro hv
+    obtain ⟨k, e⟩ := TF.GenBridge.U32s2.gen_try_from_u64_eq N v
+    exact ⟨k, by rw [e]; exact try_from_u64_spec N hv⟩
+  · intro hv
+    obtain ⟨k, e⟩ := TF.GenBridge.U32s2.gen_try_from_u128_eq N v
+    exact ⟨k, by rw [e]; exact try_from_u128_spec N hv⟩
+example : Loops.u32s_try_from_u64 1 4294967295 = .ok [4294967295] ∧
+    Loops.u32s_try_from_u64 1 4294967296 = .error "InsufficientSize" ∧
+    Loops.u32s_try_from_u128 3 79228162514264337593543950335 = .ok [4294967295, 4294967295, 4294967295] ∧
+    Loops.u32s_try_from_u128 3 79228162514264337593543950336 = .error "InsufficientSize" := by decide
+
+/-- regenerated `From<BigUint>` never panics and equals the hand model (the `N` low limbs) -/
+theorem gen_from_biguint_eq_model (N v : Nat) :
+    Loops.u32s_from_biguint_ok N v = true ∧ Loops.u32s_from_biguint N v = fromBig N v :=
+  TF.GenBridge.U32s2.gen_from_biguint_eq N v
+example : Loops.u32s_from_biguint 2 8589934593 = [1, 2] := by decide
 
 end TF.C19
